@@ -5,6 +5,7 @@
 package c16
 
 import (
+	"strings"
 	"encoding/json"
 	"fmt"
 	"math"
@@ -139,6 +140,91 @@ type Agg struct {
 	Ranges  []Rng     `json:"ranges,omitempty"`
 	DRanges []DRng    `json:"dranges,omitempty"`
 	Sub     []Agg     `json:"sub,omitempty"` // nested metrics of a bucket aggregation
+	// Filter: the node reads its field through a filtering source (aggregations.FilterText /
+	// FilterNumeric / FilterDate, or search.FilterText when Alt is set); the weight of a weighted
+	// average is never filtered
+	Filter *Flt `json:"filter,omitempty"`
+}
+
+// Flt keeps the values v of the node's field with v >= bound ("ge"), v < bound ("lt"), v != bound
+// ("ne", keywords only) or with the prefix Str ("prefix", keywords only).
+type Flt struct {
+	Op   string `json:"op"`
+	Num  F      `json:"num,omitempty"`
+	Str  string `json:"str,omitempty"`
+	Date int64  `json:"date,omitempty"`
+	Alt  bool   `json:"alt,omitempty"`
+}
+
+func (f *Flt) keepStr(v string) bool {
+	switch f.Op {
+	case "ge":
+		return v >= f.Str
+	case "lt":
+		return v < f.Str
+	case "ne":
+		return v != f.Str
+	case "prefix":
+		return strings.HasPrefix(v, f.Str)
+	}
+	return true
+}
+
+func (f *Flt) keepNum(v float64) bool {
+	if f.Op == "lt" {
+		return v < float64(f.Num)
+	}
+	return v >= float64(f.Num)
+}
+
+func (f *Flt) keepDate(v int64) bool {
+	if f.Op == "lt" {
+		return v < f.Date
+	}
+	return v >= f.Date
+}
+
+// kw, num, date: the values of the node's own field that reach the node
+func (a *Agg) kw(d *Doc) []string {
+	vs := d.Kw[a.Field]
+	if a.Filter == nil {
+		return vs
+	}
+	var r []string
+	for _, v := range vs {
+		if a.Filter.keepStr(v) {
+			r = append(r, v)
+		}
+	}
+	return r
+}
+
+func (a *Agg) num(d *Doc) []float64 {
+	vs := d.Num[a.Field]
+	if a.Filter == nil {
+		return vs
+	}
+	var r []float64
+	for _, v := range vs {
+		if a.Filter.keepNum(v) {
+			r = append(r, v)
+		}
+	}
+	return r
+}
+
+func (a *Agg) date(d *Doc) []int64 {
+	vs := d.Date[a.Field]
+	if a.Filter == nil {
+		return vs
+	}
+	var r []int64
+	for _, v := range vs {
+		if a.Filter.keepDate(v) {
+			r = append(r, v)
+		}
+	}
+	return r
 }
 
 func (a Agg) isBucket() bool { return a.Kind == "terms" || a.Kind == "ranges" || a.Kind == "dranges" }
